@@ -10,3 +10,7 @@ TRUST = "Trusted: rustc/std, proptest, num-bigint/num-rational (independent refe
 reg("C01", "property-based differential testing vs num-bigint + algebraic identities (proptest)",
     "Generated structured operand pairs (size classes straddling inline/heap, schoolbook/Karatsuba/Toom-3, squaring shortcut; carry/borrow patterns) through + - * sqr cubic pow in every ownership, assign, mixed and primitive form; each result compared word-for-word with num-bigint, large sizes additionally with ring identities. Right level because the property quantifies over all operands and an exact independent oracle exists.",
     TRUST)
+
+reg("C02", "property-based testing by construction a=q*b+r, differential vs num-bigint (proptest)",
+    "Dividends constructed from chosen divisor/quotient/remainder classes (word, double word incl. powers of two, multi-word on both sides of the schoolbook/divide-and-conquer switch, top-word-correction dividends), all signs, through every division form incl. Euclidean, assign, mixed, primitive, is_multiple_of and ConstDivisor; each result checked against the division identity evaluated in num-bigint; zero divisors must panic with the divide-by-zero message.",
+    TRUST)
